@@ -45,7 +45,6 @@ vars == <<idx, vd>>
 TokOK(st, ot) ==
     /\ st.type = ot.type
     /\ st.text = ot.text
-    /\ st.ilineno = ot.lineno
     /\ IF st.type = "NUMBER" THEN NumVal(st.val) = ot.val ELSE st.val = ot.val
 
 FirstBadTok(stoks, otoks) ==
@@ -58,6 +57,8 @@ FirstBadTok(stoks, otoks) ==
 LexClauses(c, lx) ==
     LET bad == FirstBadTok(lx.toks, c.toks) IN
     (IF bad # 0 THEN <<"lex.tokens">> ELSE <<>>)
+    \* internal observable (the lexer's own counter per token, as shipped before the line-number repair)
+    \o (IF bad = 0 /\ \E j \in 1..Len(lx.toks) : lx.toks[j].ilineno # c.toks[j].lineno THEN <<"lex.lineno">> ELSE <<>>)
     \o (IF lx.err # c.lexerr.t THEN <<"lex.err">>
         ELSE IF lx.err = "illegal" /\ (lx.errch # c.lexerr.ch \/ lx.errpos # c.lexerr.pos) THEN <<"lex.errchar">>
         ELSE <<>>)
